@@ -288,7 +288,30 @@ func (w *World) genTx(n *Node) (*ledger.Transaction, string) {
 	kind := "valid"
 	if w.mode != "honest" && r.Chance(1, 3) {
 		kind = []string{"low-fee", "neg-fee", "overflow", "wrong-key", "sig-s", "sig-r0", "sig-s0", "sig-rbig", "ref", "bad-index",
-			"future", "old", "two-yield", "dup-input", "exact-fee", "upper", "zero-out", "max-out"}[r.Intn(18)]
+			"future", "old", "two-yield", "dup-input", "exact-fee", "upper", "zero-out", "max-out", "wrong-key-late", "wrong-key-late"}[r.Intn(20)]
+		if kind == "wrong-key-late" {
+			// needs at least two inputs of one owner: the owner's own input first, a foreign key later
+			for _, s := range pool {
+				if s.owner == first.owner && s != first && len(ins) < 3 {
+					dup := false
+					for _, x := range ins {
+						if x == s {
+							dup = true
+						}
+					}
+					if !dup {
+						ins = append(ins, s)
+					}
+				}
+			}
+			total = 0
+			for _, s := range ins {
+				total += s.value
+			}
+			if len(ins) < 2 {
+				kind = "wrong-key"
+			}
+		}
 	}
 	p := &txPlan{ins: ins, ts: ts}
 	amount := uint64(0)
@@ -337,6 +360,11 @@ func (w *World) genTx(n *Node) (*ledger.Transaction, string) {
 		other := w.wallets[(r.Intn(len(w.wallets)-1)+1+indexOf(w.wallets, first.owner))%len(w.wallets)]
 		p.signers = make([]*Wallet, len(ins))
 		p.signers[0] = other
+	case "wrong-key-late":
+		other := w.wallets[(r.Intn(len(w.wallets)-1)+1+indexOf(w.wallets, first.owner))%len(w.wallets)]
+		p.ins = ins
+		p.signers = make([]*Wallet, len(ins))
+		p.signers[len(ins)-1] = other
 	case "sig-s", "sig-r0", "sig-s0", "sig-rbig", "ref", "upper":
 		p.tamper = kind
 	case "bad-index":
